@@ -245,6 +245,12 @@ def main(P, argv):
                 known_seen.setdefault(cls, []).append(c)
         if Q is not P:
             o.problems += qo.problems
+    # informational rows (sub-check 90): on how many of the judged cases do the hypotheses of the property's
+    # headline theorem hold (evaluated in Coq)?
+    applies = [c for Q, qcases, qo in parts for cid in [x["id"] for x in qcases]
+               for (s_, code_, c) in qo.rows.get(cid, []) if s_ == 90]
+    if applies:
+        coverage["theorem_hypotheses_hold"] = dict(cases=sum(1 for c in applies if c == 1), of=len(applies))
 
     # evidence numbers
     hashes = set()
